@@ -107,6 +107,37 @@ func checkC06(c *Ctx) {
 		c.depRule(p, "C06.flagdef", "ladder consumes secret and peer value", sh, sinkCallArg(1, pk.pkg+".ladderMontgomery"), "param:public")
 	}
 
+	// RFC 7748: the function always has an output; for a low-order peer value it is the all-zero string. The
+	// output parameter is written on every path to every return (an early return on the flag leaves what the
+	// caller's buffer held before)
+	{
+		de := newDecodeEngine(p)
+		for _, pk := range []string{"dh/x25519", "dh/x448"} {
+			sh := p.Func(pk, "", "Shared")
+			what := pk + ".Shared: the output is written on every path, also when the flag is false"
+			if sh == nil {
+				c.undecided("C06.flagdef", what, "anchor does not resolve", "")
+				continue
+			}
+			fa := de.analyseParam(sh, 0, 5)
+			if fa == nil || !fa.may["*"] {
+				c.bad("C06.flagdef", what, "the output parameter is never written", p.fnPos(sh))
+				continue
+			}
+			var bad []string
+			for _, b := range sh.Blocks {
+				if ret, ok := b.Instrs[len(b.Instrs)-1].(*ssa.Return); ok && !fa.at[b.Index]["*"] {
+					bad = append(bad, p.pos(ret.Pos()))
+				}
+			}
+			if len(bad) > 0 {
+				c.bad("C06.flagdef", what, "a return at "+strings.Join(bad, ", ")+" can be reached without the output having been written", p.fnPos(sh))
+			} else {
+				c.ok("C06.flagdef", what, "every return is preceded by a write of the output", p.fnPos(sh))
+			}
+		}
+	}
+
 	// ---- C06.flaguse: enumerate every caller ----
 	exempt := map[string]string{
 		"(*kem/xwing.PublicKey).EncapsulateTo":  "X-Wing does not check the flag, by its specification (named in the property statement)",
